@@ -165,14 +165,20 @@ func c42Packets(universe []c42Pfx) []c42Pkt {
 	in24 := []byte{10, 1, 1, 255}
 	out = append(out, mk4("tcp", in24, v4Spec{TOS: 0xb8, Proto: 6, SPort: 40000, DPort: 40001, Extra: 3}))
 	out = append(out, mk4("icmp", in24, v4Spec{TOS: 0, Proto: 1, Extra: 8}))
-	out = append(out, mk4("frag-first(MF)", in24, v4Spec{TOS: 0xb8, Proto: 17, SPort: 40000, DPort: 40001, MF: true, Extra: 8}))
-	out = append(out, mk4("frag-middle(MF,off)", in24, v4Spec{TOS: 0xb8, Proto: 17, SPort: 40000, DPort: 40001, MF: true, FragOff: 3, Extra: 8}))
-	out = append(out, mk4("frag-last(off)", in24, v4Spec{TOS: 0, Proto: 17, SPort: 40000, DPort: 40001, FragOff: 1, Extra: 8}))
-	df := mk4("dont-fragment-flag", in24, v4Spec{TOS: 0xb8, Proto: 17, SPort: 40000, DPort: 40001, Extra: 4})
-	df.raw[6] |= 0x40 // DF is not a fragment
-	binary.BigEndian.PutUint16(df.raw[10:], 0)
-	binary.BigEndian.PutUint16(df.raw[10:], inetChecksum(df.raw[:20]))
-	out = append(out, df)
+	// flags/offset grid: every combination of the three IPv4 flag bits (reserved, DF, MF) x fragment offset
+	// {0, 1, max}. A packet is a fragment iff MF is set or the offset is non-zero; DF and the reserved bit never
+	// make (or unmake) a fragment.
+	for flags := 0; flags < 8; flags++ {
+		for _, off := range []uint16{0, 1, 0x1fff} {
+			s := v4Spec{TOS: 0xb8, Proto: 17, SPort: 40000, DPort: 40001, Extra: 8,
+				MF: flags&1 != 0, DF: flags&2 != 0, RF: flags&4 != 0, FragOff: off}
+			name := fmt.Sprintf("flags(R=%d,DF=%d,MF=%d),offset=%d", flags>>2&1, flags>>1&1, flags&1, off)
+			if flags == 0 && off == 0 {
+				continue // the plain packet is already in the list
+			}
+			out = append(out, mk4(name, in24, s))
+		}
+	}
 	// valid IP packets whose upper layers gopacket cannot decode
 	x := mk4("proto-253", in24, v4Spec{TOS: 0xb8, Proto: 253, Extra: 4})
 	x.upper = "IP protocol 253 (RFC 3692 experimental) is unknown to gopacket"
@@ -1149,7 +1155,7 @@ func TestC42(t *testing.T) {
 		"bool=true/false/dscp with sessions unset/set/cleared/replaced; 4 lists for 4 prefixes) + the same prefixes sharing one chain; " +
 		"tables with <=2 prefixes (thorough: also 3 prefixes with the first 3 lists) are driven through the real IPForwarder.Run, " +
 		"all of them through RoutingTable.RouteIPv4/RouteIPv6; packets: dst at every prefix edge +-1 x 2 TOS, UDP/TCP/ICMP, IPv6, and " +
-		"(forwarder only) fragments, DF, undecodable upper layers, non-IP input; a case = (table, packet). part B: every policy of 0..3 " +
+		"the IPv4 flags grid (all 8 combinations of reserved/DF/MF x fragment offset 0/1/max; fragments are forwarder-only), undecodable upper layers, non-IP input; a case = (table, packet). part B: every policy of 0..3 " +
 		"rules over a rule alphabet (action x from/to matcher pair x network list) x default actions, evaluated for ISD-AS pairs x query " +
 		"prefixes on the finite address partition induced by all prefix edges, as constructed object, after MarshalText->UnmarshalText " +
 		"(with comments) and parsed from operator-style text; a case = one policy"
